@@ -79,14 +79,18 @@ struct World<E> {
     ghost: BTreeMap<Hash, bool>,
     prefix: Vec<(Operation<E>, u64, u64, bool)>,
     sigs: Vec<SigEntry>,
+    /// set when a valid in-order prefix operation was not accepted while filling the store
+    prefix_rejected: Option<String>,
 }
 
 async fn build_world<E: Extensions>(prefix: &[(Operation<E>, u64, u64, bool)], extra_logs: &[(VerifyingKey, u64)]) -> World<E> {
     let store = SqliteStore::temporary().await;
-    let mut w = World { store, logs: BTreeSet::new(), topics: BTreeSet::new(), ghost: BTreeMap::new(), prefix: prefix.to_vec(), sigs: vec![] };
+    let mut w = World { store, logs: BTreeSet::new(), topics: BTreeSet::new(), ghost: BTreeMap::new(), prefix: prefix.to_vec(), sigs: vec![], prefix_rejected: None };
     for (op, log, topic, prune) in prefix {
         let r = ingest_operation(&w.store, op, log, topic, *prune).await;
-        assert!(matches!(r, Ok(true)), "prefix operation must be accepted: {r:?}");
+        if !matches!(r, Ok(true)) {
+            w.prefix_rejected = Some(format!("{r:?}"));
+        }
         w.logs.insert((op.header.verifying_key, *log));
         w.topics.insert(*topic);
         w.ghost.insert(op.hash, *prune);
@@ -197,6 +201,9 @@ async fn run_case<E: Extensions>(
     if (rejected || matches!(ing, Ok(false))) && (!same || has != had) {
         out.oracle_fail(n, "reject-changed-store", &format!("ingest returned {ing_w} but the store changed (rows {} -> {}, has {} -> {})", before.len(), after.len(), had, has), &req, &ans);
     }
+    if let Some(why) = w.prefix_rejected.take() {
+        out.oracle_fail(n, "valid-rejected", &format!("a valid in-order operation was rejected while filling the store: {why}"), &req, &ans);
+    }
     if c.class == "valid" && !matches!(ing, Ok(true)) && !had {
         out.oracle_fail(n, "valid-rejected", &format!("a valid operation extending its log was not accepted: {ing_w}"), &req, &ans);
     }
@@ -262,6 +269,20 @@ fn mutations<E: Extensions>(
         let mut t = h.clone();
         t.signature = Some(other.sign(&u.to_bytes()));
         push(&mut out, t, body.clone(), "tamper", "signature by-another-key".into(), false);
+    }
+    {
+        // small-order public key with the signature (R = identity, S = 0): the verification
+        // equation holds for every message unless the strict variant rejects weak keys
+        let mut kb = [0u8; 32];
+        kb[0] = 1;
+        if let Ok(weak) = VerifyingKey::from_bytes(&kb) {
+            let mut t = h.clone();
+            t.verifying_key = weak;
+            let mut sb = [0u8; 64];
+            sb[0] = 1;
+            t.signature = Some(Signature::from_bytes(&sb));
+            push(&mut out, t, body.clone(), "tamper", "key small-order-forgery".into(), false);
+        }
     }
     for z in [h.payload_size.wrapping_add(1), h.payload_size.wrapping_sub(1), 0] {
         if z != h.payload_size {
@@ -500,7 +521,7 @@ fn generate(args: &Args, cx: &mut Cx) {
     let mut rng = Rng::new(args.seed);
     let keys: Vec<SigningKey> = (0..4).map(|_| key_from(&mut rng)).collect();
     let (bases, sig_positions) = match args.tier {
-        Tier::Quick => (100usize, 6usize),
+        Tier::Quick => (60usize, 6usize),
         Tier::Thorough => (1200, 64),
         Tier::Search => (250, 16),
     };
